@@ -63,6 +63,11 @@ func main() {
 	genDecoders(repo, out, ps)
 	genLifecycle(repo, out, ps)
 	genOps(repo, out, ps)
+	genTableFacts(repo, out, ps)
+	genJoin(repo, out, ps)
+	genWriter(repo, out, ps)
+	genProcess(repo, out, ps)
+	genStore(repo, out, ps)
 }
 
 // ---------------------------------------------------------------------------- lock facts
